@@ -2,6 +2,8 @@ package vc
 
 import (
 	"fmt"
+	"os"
+	"runtime/debug"
 	"go/types"
 	"strings"
 
@@ -40,6 +42,9 @@ type unsupported struct{ msg string }
 func (u unsupported) Error() string { return u.msg }
 
 func unsup(format string, args ...interface{}) {
+	if os.Getenv("IONVC_TRACE") != "" {
+		debug.PrintStack()
+	}
 	panic(unsupported{fmt.Sprintf(format, args...)})
 }
 
@@ -335,8 +340,25 @@ func (x *Exec) iteVal(c string, a, b Val) Val {
 		unsup("merge of values with different shapes (%v / %v)", a.T, b.T)
 	}
 	r := Val{T: a.T, Key: a.Key, Old: a.Old}
-	if a.Key != b.Key || a.Old != b.Old {
-		unsup("merge of pointers into different heap regions (%s / %s)", a.Key, b.Key)
+	refVal := false
+	if a.T != nil {
+		switch a.T.Underlying().(type) {
+		case *types.Pointer, *types.Slice, *types.Map, *types.Interface, *types.Struct, *types.Array:
+			refVal = true
+		}
+	}
+	if refVal && (a.Key != b.Key || a.Old != b.Old) {
+		// nil constants carry no region of their own
+		switch {
+		case isNilConst(a):
+			r.Key, r.Old = b.Key, b.Old
+		case isNilConst(b):
+		default:
+			unsup("merge of pointers into different heap regions (%s / %s)", a.Key, b.Key)
+		}
+	}
+	if !refVal {
+		r.Key, r.Old = "", false
 	}
 	if (a.Idx == "") != (b.Idx == "") {
 		unsup("merge of element and object pointers")
